@@ -45,6 +45,12 @@ def cases(tier, seed, args):
                               affiliation_eps=0.0)
             sc['E'] = 3
         out.append(sc)
+    # integration model with a non-uniform saliency that is correlated with the (soft) initial class
+    for i in range(4 if q else 24):
+        out.append(dict(t='ll', kind='gcacgmm', L=[2 + i % 2], K=2, D=3, N=40, wca=[(-1,), (-3, -1)][i % 2], wca_type='tuple',
+                        iterations=12 if q else 25, saliency=True, seed=int(rng.integers(1 << 30)),
+                        opts=dict(spatial_weight=1.0, spectral_weight=1.0, covariance_type=['spherical', 'full', 'diagonal'][i % 3],
+                                  affiliation_eps=0.0), offset=0.0, sal_class=True, E=3))
     # badly scaled / sharply concentrated regimes
     for i in range(6 if q else 36):
         if i % 2 == 0:
